@@ -40,6 +40,25 @@ def _exception_for(fq: str, construct: str) -> Optional[str]:
     return None
 
 
+def _blank_helpers(model) -> set:
+    """functions the reference tree does not have that _ensure_codepoints_will_have_glyphs calls (the blank-glyph loop moved into a helper)"""
+    from .. import report as _rep
+    fi = model.func("write_font", "_ensure_codepoints_will_have_glyphs")
+    out = set()
+    for c in calls_in(fi, nested=True):
+        callee = model.resolve_call(fi, c)
+        if callee is not None and not isinstance(callee.node, ast.Lambda) and _rep.CURRENT_DRIFT.get(callee.fq, 0) is None:
+            out.add(callee.fq)
+    # the normal form inlines such a helper into its caller; the helper's own definition is still analysed: recognise it by what it does
+    for f2 in model.mod("write_font").functions.values():
+        if isinstance(f2.node, ast.Lambda) or _rep.CURRENT_DRIFT.get(f2.fq, 0) is not None:
+            continue
+        if any(isinstance(st, ast.Assign) and "glyphOrder" in norm(st.targets[0]) and "sorted(" in norm(st.value) for st in walk_body(f2)) \
+                and any(callee_tail(c) == "newGlyph" for c in calls_in(f2, nested=True)):
+            out.add(f2.fq)
+    return out
+
+
 @RULES.rule("C08", "R08a", "no order-sensitive consumption of set-like values or directory listings on the font path", floor=25)
 def r08a(model: Model, rr: RuleResult):
     mods = font_path_modules(model)
@@ -60,7 +79,7 @@ def r08a(model: Model, rr: RuleResult):
             vals = [d.value for d in cfg.reaching(cfg.node_for(f.node), it) if d.value is not None] or ([f.fi.module.assigns[it]] if it in f.fi.module.assigns else [])
             if vals and all(isinstance(v, ast.Set) and all(isinstance(e, ast.Constant) and e.value in ("GDEF", "GPOS", "GSUB", "MATH") for e in v.elts) for v in vals):
                 why = ORDER_EXCEPTIONS[("reorder_glyphs.reorder_glyphs", "for tag in coverage_containers")]
-        if why is None and f.fi.fq == "write_font._ensure_codepoints_will_have_glyphs":
+        if why is None and (f.fi.fq == "write_font._ensure_codepoints_will_have_glyphs" or f.fi.fq in _blank_helpers(model)):
             # the reviewed exception above, recognised by what the loop does rather than by its spelling: it only creates glyphs keyed by name
             # (ufo.newGlyph, an attribute of the new glyph) and collects their names; the order is fixed afterwards by sorted() (R08a-blank below)
             loop = f.node if isinstance(f.node, ast.For) else None
@@ -82,7 +101,8 @@ def r08a(model: Model, rr: RuleResult):
     rr.remarks.append(f"modules analysed: {len(mods)}; out of scope (QA tools): {sorted(QA_MODULES)}")
     # R08a-blank: the reviewed exception relies on glyphOrder being assigned from sorted(...)
     fi = model.func("write_font", "_ensure_codepoints_will_have_glyphs")
-    ok = any(isinstance(st, ast.Assign) and "glyphOrder" in norm(st.targets[0]) and "sorted(" in norm(st.value) for st in walk_body(fi))
+    scope = [fi] + [f2 for f2 in model.mod("write_font").functions.values() if f2.fq in _blank_helpers(model)]
+    ok = any(isinstance(st, ast.Assign) and "glyphOrder" in norm(st.targets[0]) and "sorted(" in norm(st.value) for f2 in scope for st in walk_body(f2))
     if ok:
         rr.ok("blank glyphs are appended to glyphOrder in sorted() order")
     else:
@@ -336,6 +356,13 @@ def r08e(model: Model, rr: RuleResult):
                 return False
         return None
     verdicts = [sorted_on_absolute(d.value) for d in direct if d.value is not None]
+    if direct and all(v is None for v in verdicts):
+        # the tuple is assembled by a loop: what the loop walks decides the order
+        for lp in [x for x in walk_body(lfi) if isinstance(x, ast.For) and "srcs" in norm(x.iter)]:
+            fed = any(isinstance(d.value, (ast.Dict, ast.List)) or d.value is not None for d in direct) and any(
+                isinstance(y, ast.Name) and isinstance(srcs, ast.Name) and any(y.id in norm(d.value) for d in direct if d.value is not None) for y in ast.walk(lp))
+            if fed:
+                verdicts.append(sorted_on_absolute(lp.iter))
     if direct and verdicts and all(v is True for v in verdicts):
         rr.ok("config.load: master sources = tuple(sorted(absolute paths)) of the collected set")
     elif direct and any(v is False for v in verdicts):
@@ -612,13 +639,23 @@ def r08j(model: Model, rr: RuleResult):
                 kps = param_closure(cfg, at, key)
                 base = m.split(".")[0].split("[")[0]
                 # everything read between the look-up and the store (the work the hit skips), the stored value included
-                lo, hi = min(look.lineno, store.lineno), store.end_lineno or store.lineno
-                region = [x for x in walk_body(fi, nested=True) if isinstance(x, ast.Name) and isinstance(x.ctx, ast.Load) and lo <= x.lineno <= hi]
+                # (by control flow, not by line numbers: inlined helper bodies keep the lines they had)
+                ln = cfg.node_for(look)
+                fwd = cfg.reachable_from(ln) | {ln}
+                between = {n_ for n_ in fwd if n_ == at or at in cfg.reachable_from(n_)}
+                region = []
+                for n_ in between:
+                    a_ = cfg.nodes[n_].ast
+                    if a_ is None:
+                        continue
+                    tops = [a_.test] if isinstance(a_, (ast.If, ast.While)) else ([a_.iter] if isinstance(a_, ast.For) else ([i_.context_expr for i_ in a_.items] if isinstance(a_, ast.With) else [a_]))
+                    for t_ in tops:
+                        region += [x for x in ast.walk(t_) if isinstance(x, ast.Name) and isinstance(x.ctx, ast.Load)]
                 vps = set()
                 for x in region:
                     if x.id in fi.params:
                         try:
-                            vps |= param_closure(cfg, cfg.node_for(x), x)
+                            vps |= param_closure(cfg, at, x)
                         except Exception:
                             vps.add(x.id)
                 extra = sorted(p_ for p_ in vps - kps if p_ not in ("self", "cls", base))
